@@ -56,6 +56,9 @@ var LkCodecs = map[uint64]lkCodec{
 // LkCodecs) a code number is bound to, separately for encoding and decoding.
 type LkReg struct {
 	Global bool // the process-wide default registry, used through cidlink.DefaultLinkSystem()
+	// Order in which a private (zero-value) multicodec.Registry is populated: "" encoders first,
+	// "d" decoders first, "l" a Lookup*/List* call first, then decoders first
+	Order string
 	Enc    map[uint64]uint64
 	Dec    map[uint64]uint64
 }
@@ -98,21 +101,22 @@ func (rg *LkReg) Text() string {
 		}
 	}
 	sort.Strings(ents)
-	return "R:" + strings.Join(ents, ",")
+	return "R" + rg.Order + ":" + strings.Join(ents, ",")
 }
 
 func LkParseReg(s string) (*LkReg, error) {
 	if s == "G" {
 		return LkGlobalReg(), nil
 	}
-	if !strings.HasPrefix(s, "R:") {
+	colon := strings.IndexByte(s, ':')
+	if !strings.HasPrefix(s, "R") || colon < 1 || colon > 2 {
 		return nil, fmt.Errorf("bad registry %q", s)
 	}
-	rg := &LkReg{Enc: map[uint64]uint64{}, Dec: map[uint64]uint64{}}
-	if s == "R:" {
+	rg := &LkReg{Enc: map[uint64]uint64{}, Dec: map[uint64]uint64{}, Order: s[1:colon]}
+	if len(s) == colon+1 {
 		return rg, nil
 	}
-	for _, ent := range strings.Split(s[2:], ",") {
+	for _, ent := range strings.Split(s[colon+1:], ",") {
 		kv := strings.SplitN(ent, "=", 2)
 		if len(kv) != 2 {
 			return nil, fmt.Errorf("bad registry entry %q", ent)
@@ -149,12 +153,39 @@ func (rg *LkReg) LinkSystem() linking.LinkSystem {
 	if rg.Global {
 		return cidlink.DefaultLinkSystem()
 	}
-	reg := multicodec.Registry{}
-	for c, impl := range rg.Enc {
-		reg.RegisterEncoder(c, LkCodecs[impl].Enc)
+	reg := multicodec.Registry{} // zero value: every entry point must cope with being the first call
+	encs := func() {
+		for c, impl := range rg.Enc {
+			reg.RegisterEncoder(c, LkCodecs[impl].Enc)
+		}
 	}
-	for c, impl := range rg.Dec {
-		reg.RegisterDecoder(c, LkCodecs[impl].Dec)
+	decs := func() {
+		for c, impl := range rg.Dec {
+			reg.RegisterDecoder(c, LkCodecs[impl].Dec)
+		}
+	}
+	switch rg.Order {
+	case "d":
+		decs()
+		encs()
+	case "l":
+		if _, err := reg.LookupDecoder(LkDagCbor); err == nil {
+			panic("fresh registry knows a decoder")
+		}
+		if _, err := reg.LookupEncoder(LkDagCbor); err == nil {
+			panic("fresh registry knows an encoder")
+		}
+		if len(reg.ListDecoders()) != 0 || len(reg.ListEncoders()) != 0 {
+			panic("fresh registry lists codecs")
+		}
+		decs()
+		encs()
+	default:
+		encs()
+		decs()
+	}
+	if len(reg.ListEncoders()) != len(rg.Enc) || len(reg.ListDecoders()) != len(rg.Dec) {
+		panic("registry lists other codecs than were registered")
 	}
 	return cidlink.LinkSystemUsingMulticodecRegistry(reg)
 }
@@ -390,8 +421,10 @@ func LkErrClass(err error, rest string) string {
 		return "err.hash_mismatch"
 	case errors.As(err, &su):
 		return "err.setup"
-	case err == LkErrRead || err == LkErrWrite || err == io.ErrShortWrite:
+	case err == LkErrRead || err == LkErrWrite:
 		return "err.io"
+	case err == io.ErrShortWrite:
+		return "err.shortwrite"
 	case err == LkErrOpen || err == LkErrWOpen || errors.Is(err, os.ErrNotExist) || err.Error() == "404":
 		return "err.open"
 	case err == LkErrCommit:
